@@ -58,7 +58,7 @@ Section Byte.
   Proof.
     intros I Eb. destruct I as (pre & done & E & Ec & Ed).
     destruct (d_rest (br_dec r)) as [|s rest] eqn:Er.
-    - left. split; [reflexivity|]. unfold byte_refill. rewrite (read_frame_none F _ Er).
+    - left. split; [reflexivity|]. unfold byte_refill. rewrite (read_frame_none F V _ pre E Er Ec).
       destruct r; reflexivity.
     - right. destruct (read_frame_some F V _ pre s rest E Er Ec) as (f & -> & Hf & Hrf).
       exists f, rest. eexists. split; [reflexivity|]. split; [exact Hf|].
